@@ -53,13 +53,30 @@ DepthOk(code, j, d) ==
          ELSE d >= 1 /\ DepthOk(code, j + 1, d)
 WellNested(code) == Len(code) >= 1 /\ DepthOk(code, 1, 1)
 
+\* kinds of the constructs open just before instruction i (outermost first), and the kind
+\* of label a branch at i with relative depth d designates ("fn" = the function label)
+RECURSIVE OpenKinds(_, _, _, _)
+OpenKinds(code, j, i, acc) ==
+    IF j >= i THEN acc
+    ELSE LET o == code[j].o IN
+         IF o \in Openers THEN OpenKinds(code, j + 1, i, Append(acc, o))
+         ELSE IF o = "end" THEN OpenKinds(code, j + 1, i, SubSeq(acc, 1, Len(acc) - 1))
+         ELSE OpenKinds(code, j + 1, i, acc)
+TargetKind(code, i, d) ==
+    LET st == OpenKinds(code, 1, i, <<>>) IN IF d >= Len(st) THEN "fn" ELSE st[Len(st) - d]
+TargetKinds(code, i) ==
+    LET c == code[i] IN
+    IF c.o = "br_table" THEN {TargetKind(code, i, c.ds[x]) : x \in DOMAIN c.ds} \cup {TargetKind(code, i, c.d)}
+    ELSE IF c.o \in {"br", "br_if"} THEN {TargetKind(code, i, c.d)}
+    ELSE {}
+
 ---------------------------------------------------------------------------
 NConds == 8
 Fuel   == 2            \* loop back-edges allowed per run
 
 NewMachine ==
     [pc |-> 1, vs |-> <<>>, ls |-> <<>>, loc |-> <<>>, ev |-> <<>>, st |-> "run",
-     occ |-> [k \in 0 .. NConds - 1 |-> 0], oct |-> 0, fuel |-> Fuel]
+     occ |-> [k \in 0 .. NConds - 1 |-> 0], oct |-> 0, fuel |-> Fuel, init |-> TRUE]
 
 Top(s)  == s[Len(s)]
 Pop(s)  == SubSeq(s, 1, Len(s) - 1)
